@@ -436,8 +436,10 @@ pub fn c31_case(src: &mut Src, obs: &mut Obs) -> CaseResult {
         }
         streams.push(st);
     }
-    // drain whatever else is ready now (allowed), then the further signals
-    for st in streams.iter_mut() {
+    // drain whatever else is ready now (allowed), then the further signals; a consumer that is slow
+    // to come back does not poll again after the item it got (what arrives meanwhile must not be lost)
+    let comes_back_late = src.bool();
+    for st in streams.iter_mut().filter(|_| !comes_back_late) {
         while let Some(item) = poll_once(st) {
             let v = report(item, &mut sched, &mut sch, &mut bus, a, b, unc).map_err(Failure::new)?;
             if v != a {
@@ -469,9 +471,75 @@ pub fn c31_case(src: &mut Src, obs: &mut Obs) -> CaseResult {
         }
         stream_notes.push(format!("stream {k}: {yielded} item(s) after {more:?}"));
     }
+    // ---- a refetch after an invalidation, overtaken by a newer change ------------------------------
+    // A is invalidated; the consumer of a change stream asks the item for the value (a Get goes out);
+    // the service answers with the value of that moment and then announces a newer one. Whatever the
+    // order in which the cache task and the consumer get to run, the cache must end up with the newer
+    // value: it is the last thing received.
+    let race = src.chance(110);
+    if race {
+        emit(&mut bus, &PEv::Invalidated("A"));
+        settle_raw(&mut sched, &mut sch, &mut bus);
+        let Some(item) = poll_once(&mut streams[0]) else {
+            return Err(Failure::new(format!("property change stream 0 for A yields nothing after A was invalidated; {}", describe())));
+        };
+        let out: Arc<Mutex<Option<zbus::Result<u32>>>> = Default::default();
+        let o2 = out.clone();
+        let t = sched.spawn("refetch", async move {
+            let r = item.get().await;
+            *o2.lock().unwrap() = Some(r);
+        });
+        let older = a;
+        let newer = 6000 + (a % 1000);
+        let mut answered = false;
+        let oc = sched.run(&mut || sch.next(), 300_000, &mut |s| {
+            for i in bus.peer.pump() {
+                let m = bus.peer.out[i].clone();
+                if m.mtype != msg::T_CALL {
+                    continue;
+                }
+                match m.get_str(msg::F_MEMBER) {
+                    Some("Get") if !answered => {
+                        answered = true;
+                        let r = bus.peer.method_return(&m, vec![RVal::V(Box::new((RSig::U, RVal::U(older))))], Some(":1.7"));
+                        bus.peer.send(&r);
+                        pc_signal(&mut bus, "c31.I", vec![("A", RVal::U(newer))], vec![]);
+                    }
+                    Some("Get") => {
+                        let r = bus.peer.method_return(&m, vec![RVal::V(Box::new((RSig::U, RVal::U(newer))))], Some(":1.7"));
+                        bus.peer.send(&r);
+                    }
+                    _ => {
+                        let r = bus.peer.method_return(&m, vec![], Some(BUS));
+                        bus.peer.send(&r);
+                    }
+                }
+            }
+            s.done(t)
+        });
+        if oc != Outcome::Goal {
+            return Err(Failure::new(format!("fetching an invalidated property through the change stream's item does not complete ({oc:?}); {}", describe())));
+        }
+        if answered {
+            a = newer;
+        }
+        settle_raw(&mut sched, &mut sch, &mut bus);
+        let fetched = out.lock().unwrap().take();
+        let cached: Option<u32> = proxy.cached_property::<u32>("A").map_err(|e| Failure::new(format!("cached_property(A) failed: {e}")))?;
+        if answered && cached != Some(newer) {
+            return Err(Failure::keyed(
+                "refetch-overwrites-newer-change",
+                format!("after Invalidated(A), a Get answered with {older} and then PropertiesChanged A={newer}, the cache holds A={cached:?} (the item's get() returned {:?}): the last value received is {newer}; {}", fetched.map(|r| r.map_err(|e| e.to_string())), describe()),
+            ));
+        }
+        obs.label(if answered { "change-stream:refetch-overtaken-by-a-newer-change" } else { "change-stream:refetch-without-get" });
+    }
     obs.label(if touched { "change-stream:signals-touching-the-property" } else { "change-stream:no-touching-signal" });
     if nstreams == 2 {
         obs.label("change-stream:two-streams-for-one-property");
+    }
+    if comes_back_late && touched {
+        obs.label("change-stream:change-between-an-item-and-the-next-poll");
     }
     let both_sides = pre.iter().any(|e| matches!(e, PEv::Changed("A" | "B", _))) && post.iter().any(|e| matches!(e, PEv::Changed("A" | "B", _) | PEv::Invalidated(_)));
     obs.label(if split_after_reply { "post-signals-later" } else { "post-signals-with-reply" });
